@@ -1,5 +1,131 @@
 /-
-C10 — property theorems (stub: not built yet).
+C10 — arbitrary patterns and inputs never panic: the interpreter part (VM slice).
+
+`RegexVerif.VM` (Model/VM.lean) is a small-step model of `executeDefault` in which every Go slice access
+that can be out of range is an explicit fault.  Leg W ties it to the running code: for every compiled
+program it explores (main and bool-only) and every start position, the Go interpreter and the model go
+through the same states iteration by iteration, and `Prog.wf` is evaluated on every program.
+
+The theorems below say: for a well-formed program, from the state in which `executeDefault` starts, no
+iteration ever raises a *structural* fault — `Codes[…]`, `Strings[…]`, `Sets[…]`, `Runtext[…]` out of range,
+a Back / Back2 case popping slots that are not there, `backtrack()` on an empty stack, a capture number
+outside the capture arrays, an operator without a `case` — for every input, every start position and
+any number of iterations.  They hold for all well-formed programs, not only for those the writer emits.
+
+What they do not exclude (the faults with `Fault.structural = false`): `stackUnderflow`, `crawlUnderflow`,
+`tracktoRange`, `textposRange`, `capRange`.  These depend on the discipline of the grouping stack (what
+kind of value sits where), which is a property of the programs the writer emits, not of `wf`; leg W
+observes on every explored run that none of them occurs (the model would stop with a fault where Go
+returns a result).
 -/
+import RegexVerif.Lemmas.VM
+
 namespace RegexVerif.Props.C10
+open RegexVerif RegexVerif.VM RegexVerif.Code RegexVerif.Lemmas.VM
+
+/-- a state of an attempt of a well-formed program that satisfies the frame invariant
+    (`Lemmas.VM.Inv`): the code position is an instruction boundary and the operator is the instruction
+    there; the text position is inside `[0, len]`; the backtracking stack is a sequence of whole frames,
+    each with exactly the data slots its Back / Back2 case pops and with saved text positions from which
+    that case reads only inside the text, on top of the frame of the `Lazybranch` at code position 0 -/
+def Safe (p : Prog) (env : Env) (s : VMState) : Prop := ∃ bs, WF p bs ∧ Inv p bs env s
+
+/-- **(a) what `Prog.wf` checks.**  If the decidable check `p.wf` succeeds (leg W evaluates it on every
+    compiled program), then there is a list `bs` of instruction boundaries such that every instruction is a
+    known opcode without Back/Back2 bits, lies inside the code array together with its operands, is followed by
+    another instruction unless it is `Stop`, has its string / set / capture-slot operands in range and its jump
+    target in `bs`; code position 0 is a `Lazybranch` whose target is a `Stop`. -/
+theorem wf_sound (p : Prog) (h : p.wf = true) : ∃ bs, WF p bs := wf_spec h
+
+/-- **The start state of an attempt satisfies the invariant** (`executeDefault` after its `goTo(0)`), for every
+    start position inside the text. -/
+theorem attempt_starts_safe (p : Prog) (env : Env) (pos : Int) (h : p.wf = true)
+    (h0 : 0 ≤ pos) (hn : pos ≤ env.len) : ∃ s0, init p pos = .ok s0 ∧ Safe p env s0 := by
+  obtain ⟨bs, hwf⟩ := wf_spec h
+  obtain ⟨s0, hi, hinv, _, _⟩ := init_inv (env := env) hwf pos h0 hn
+  exact ⟨s0, hi, bs, hwf, hinv⟩
+
+/-- **(b) No structural fault, one step.**  From a safe state, an iteration of the interpreter loop never
+    indexes `Codes`, `Strings`, `Sets` or the text out of range, never pops backtracking slots that are not
+    there, never calls `backtrack()` on an empty stack, never uses a capture number outside the capture arrays
+    and never meets an operator without a `case`. -/
+theorem step_no_structural_fault (p : Prog) (env : Env) (s : VMState) (hs : Safe p env s) (f : Fault)
+    (h : step p env s = .fault f) : f.structural = false := by
+  obtain ⟨bs, hwf, hinv⟩ := hs
+  have := step_ok hwf hinv
+  rw [h] at this
+  exact this
+
+/-- **(b) The invariant is preserved.** -/
+theorem step_preserves_safe (p : Prog) (env : Env) (s s' : VMState) (chk : Bool) (hs : Safe p env s)
+    (h : step p env s = .next s' chk) : Safe p env s' := by
+  obtain ⟨bs, hwf, hinv⟩ := hs
+  have := step_ok hwf hinv
+  rw [h] at this
+  exact ⟨bs, hwf, this⟩
+
+/-- **(b) No structural fault, ever.**  However long the interpreter runs from a safe state (any fuel), the
+    run does not end in a structural fault: it returns, is still running when the fuel ends, or stops at one
+    of the faults that depend on the grouping-stack discipline. -/
+theorem run_no_structural_fault (p : Prog) (env : Env) : ∀ (fuel : Nat) (s : VMState), Safe p env s →
+    ∀ f, (run p env fuel s).1 = .fault f → f.structural = false := by
+  intro fuel
+  induction fuel with
+  | zero => intro s _ f h; simp [run] at h
+  | succ fuel ih =>
+    intro s hs f h
+    unfold run at h
+    cases hst : step p env s with
+    | fault g =>
+      rw [hst] at h
+      simp only [Final.fault.injEq] at h
+      subst h
+      exact step_no_structural_fault p env s hs g hst
+    | stop s' => rw [hst] at h; simp at h
+    | next s' chk =>
+      rw [hst] at h
+      exact ih s' (step_preserves_safe p env s s' chk hs hst) f h
+
+/-- **(b) An attempt of a well-formed program never faults structurally**: any program with `wf`, any text,
+    any start position in the text, any `\G` origin, any oracles, any number of iterations. -/
+theorem attempt_no_structural_fault (p : Prog) (env : Env) (pos : Int) (h : p.wf = true)
+    (h0 : 0 ≤ pos) (hn : pos ≤ env.len) (fuel : Nat) :
+    ∃ s0, init p pos = .ok s0 ∧ ∀ f, (run p env fuel s0).1 = .fault f → f.structural = false := by
+  obtain ⟨s0, hi, hs⟩ := attempt_starts_safe p env pos h h0 hn
+  exact ⟨s0, hi, run_no_structural_fault p env fuel s0 hs⟩
+
+/-! ### non-vacuity: the compiled program of `(?:ab?)*c` on "ababc" -/
+
+example : demo.wf = true := by decide
+example : demo.boundaries = some [0, 2, 3, 4, 6, 8, 11, 13, 15, 18] := by decide
+
+/-- the hypotheses of the theorems are met: the start state at position 0 is safe -/
+example : ∃ s0, init demo 0 = .ok s0 ∧ Safe demo demoEnv s0 :=
+  attempt_starts_safe demo demoEnv 0 (by decide) (by decide) (by decide)
+
+/-- the attempt at 0: 16 iterations (as the Go trace shows), a match of `[0, 5)`, final text position 5 -/
+example : (match init demo 0 with
+    | .ok s0 => match run demo demoEnv 100 s0 with
+      | (.done s, n) => (n, matched s, s.textpos, MatchBuilder.matchCapture s.cap.m)
+      | _ => (0, false, 0, (0, 0))
+    | .error _ => (0, false, 0, (0, 0))) = (16, true, 5, (0, 5)) := by decide
+
+/-- the attempt at 1 fails after backtracking through the root frame: 13 iterations, empty stack at `Stop` -/
+example : (match init demo 1 with
+    | .ok s0 => match run demo demoEnv 100 s0 with
+      | (.done s, n) => (n, matched s, s.track.length)
+      | _ => (0, true, 0)
+    | .error _ => (0, true, 0)) = (13, false, 0) := by decide
+
+/-- a program without `Stop` -/
+def broken : Prog := { demo with codes := #[9, 97] }
+
+/-- the fault channel is real: a program that is not well-formed runs off the code array -/
+example : broken.wf = false ∧
+    (match init broken 0 with
+     | .ok s0 => (match (run broken demoEnv 10 s0).1 with
+        | .fault .codeIndex => true
+        | _ => false)
+     | .error _ => false) = true := by decide
+
 end RegexVerif.Props.C10
